@@ -36,7 +36,15 @@ pub fn resp_datum() -> impl Strategy<Value = RespDatum> {
 /// Response part of a plan: 0..2 headers and 1..5 data.
 pub fn response() -> impl Strategy<Value = (Vec<B>, Vec<RespDatum>)> {
     (
-        proptest::collection::vec(prop_oneof![4 => "[A-Z][A-Za-z0-9]{0,5}", 1 => "[A-Z][A-Za-z0-9]{6,11}"].prop_map(B::from), 0..4),
+        // response header mnemonics; now and then the first one is a common command header (`*ESE 32` in a learn string)
+        (proptest::collection::vec(prop_oneof![4 => "[A-Z][A-Za-z0-9]{0,5}", 1 => "[A-Z][A-Za-z0-9]{6,11}"].prop_map(B::from), 0..4), prop_oneof![9 => Just(false), 1 => Just(true)]).prop_map(|(mut h, star)| {
+            if star && !h.is_empty() {
+                let mut first = b"*".to_vec();
+                first.extend_from_slice(&h[0]);
+                h[0] = B(first);
+            }
+            h
+        }),
         prop_oneof![
             300 => proptest::collection::vec(resp_datum(), 1..6),
             10 => proptest::collection::vec(resp_datum(), 6..24),
